@@ -2,10 +2,10 @@
 
 import os
 
-# which of fixes/C10-F1.diff, C10-F2.diff, C10-F3.diff the tree under test contains ("1" = applied), e.g. VERIF_C10_FIXED=101.
-# Default = the pinned tree.  When the coordinator commits a fix, flip the corresponding digit of the default and
-# move the finding to "fixed" in findings/C10.json.
-_FIXED = (os.environ.get("VERIF_C10_FIXED", "000") + "000")[:3]
+# which of the repairs of C10-F1 (637ae67), C10-F2 (c971513), C10-F3 (e0dc5e2) the tree under test contains ("1" = present).
+# Default 111 = /repo as it is now.  VERIF_C10_FIXED=000 selects the model of the originally pinned code (for experiments against an
+# old checkout only; with the findings recorded as fixed, its defect behaviour is then reported as VIOLATION, as it should be).
+_FIXED = (os.environ.get("VERIF_C10_FIXED", "111") + "111")[:3]
 _CHECK = "check (mkfx %s)" % " ".join("true" if d == "1" else "false" for d in _FIXED)
 
 OVERLAY = {
@@ -22,20 +22,19 @@ P = {
     "theorems": ["C10_ttl_within_lifetime", "C10_store_positive", "C10_finalizer_token_not_expired", "C10_zero_disables",
                  "C10_config_only_shortens", "C10_http_not_stored_when_nonpositive", "C10_http_ttl_within_lifetime",
                  "C10_no_hit_after_expiry", "C10_no_hit_after_expiry_http",
-                 "C10_F1_refuted", "C10_F1_history_refuted", "C10_F2_refuted", "C10_F3_refuted", "C10_nonvacuous",
-                 "C10_check_sound_fn", "C10_check_sound_exec", "C10_check_sound_http", "C10_check_sound_cache",
-                 "C10_check_sound_hist"],
+                 "C10_F1_pinned_refuted", "C10_F1_history_pinned_refuted", "C10_F2_pinned_refuted", "C10_F3_pinned_refuted",
+                 "C10_nonvacuous", "C10_check_sound", "C10_check_sound_fixed", "C10_cache_expiry_enforced"],
     "streams": [{
         "name": "all", "pkg": "./internal/zzverif/c10", "test": "TestVerifC10", "overlay": OVERLAY,
         "eval_module": "Run.Eval_C10", "check_term": _CHECK,
-        "n_quick": 1200, "n_thorough": 30000, "findings": {1: "C10-F1", 2: "C10-F2", 3: "C10-F3"}, "shard": 300,
+        "n_quick": 1200, "n_thorough": 30000, "findings": {}, "shard": 300,
     }],
-    "rule": "one overlay-only driver, five case kinds, corpus (witnesses of C10-F1/F2/F3) first: "
+    "rule": "one overlay-only driver, five case kinds, corpus (witnesses of the repaired C10-F1/F2/F3) first: "
             "fn (40%): one call of the REAL getCacheTTL of oauth2_introspection / jwt (JWK cache) / generic authenticator / "
             "client credentials with expiry = now + delta (delta on a grid: absent, -1d .. +1d, dense around 0, +-leeway, 2*leeway, +-2) x "
             "ttl state (unset, 0, -1ns, -1s, 1ns .. 1h, remaining lifetime +-1s; client credentials with sub-second offsets); "
-            "exec (25%): all seven mechanisms created by the REAL mechanism factory from a prototype cache_ttl (unset/0/-1s/3s..1h) and a "
-            "rule-level cache_ttl through WithConfig, executed once against httptest endpoints with a recording cache: lookup?, ttl "
+            "exec (25%): all seven mechanisms (client credentials both through Config.Token and through the oauth2_client_credentials finalizer) created by the REAL mechanism factory from a prototype cache_ttl (unset/0/-1s/3s..1h) and a "
+            "rule-level cache_ttl and/or another rule-level option through WithConfig, executed once against httptest endpoints with a recording cache: lookup?, ttl "
             "handed to Set, accepted?, exp claim of the issued JWT; "
             "http (15%): Cache-Control x Expires x Date x Last-Modified x status x method x request Cache-Control x default ttl "
             "(0/5s/1h/-1s) through the REAL httpcache.RoundTripper into the REAL memory.Cache or the REAL redis cache (miniredis), "
@@ -43,7 +42,7 @@ P = {
             "cache (10%): time-stamped Set/Get sequences (ttl -1h..1h incl. 0, -1, -2, sub-millisecond) on both real backends "
             "(miniredis FastForward = exact simulated time; in-memory = real sleeps with measured brackets); "
             "hist (10%): 3-6 time-stamped requests over two keys through the real remote authorizer / generic contextualizer / generic "
-            "authenticator / round tripper with a real backend, ttl in force 0 / short / long via prototype or rule level: hit/miss pattern and "
+            "authenticator / round tripper (stub transport, or a contextualizer with endpoint.http_cache against a real httptest server) with a real backend, ttl in force 0 / short / long via prototype or rule level: hit/miss pattern and "
             "Set ttls.  Non-trivial = fn/exec with expiry within +-2*leeway of now or a non-positive/rule-level ttl; http with any explicit "
             "lifetime or default ttl; cache with a Get after a Set of the same key; hist with a repeated key.  Distinct by hash of the "
             "(time-relative) input.",
@@ -59,6 +58,8 @@ P = {
         "internal/cache/redis/cache.go",
         "internal/rules/mechanisms/authorizers/remote_authorizer.go",
         "internal/rules/mechanisms/contextualizers/generic_contextualizer.go",
+        "internal/rules/mechanisms/finalizers/oauth2_client_credentials_finalizer.go",
+        "internal/rules/endpoint/endpoint.go",
     ],
     "trusted": [
         "pquerna/cachecontrol (RFC 7234 parsing, cachability reasons, freshness lifetime) is an oracle: its answer on the very "
@@ -74,28 +75,30 @@ P = {
         "getCacheTTL call by struct literal (field names ttl/TTL); all other cases go through the real factories",
     ],
     "level_text": "Proof (kernel-checked, no axioms) over all expiry/now/ttl relations in Z and all request histories (induction over "
-                  "histories, both cache semantics): every ttl a mechanism hands to the cache is positive, at most the configured ttl, "
-                  "and -- outside the guard of C10-F1 -- ends strictly before the credential's / certificate's / token's own expiry even "
-                  "if applied up to 4 s late; a ttl of zero in force disables lookup and store (outside C10-F3); a response with "
-                  "non-positive freshness lifetime leaves the cache unchanged (outside C10-F2) and a stored one expires exactly at its "
-                  "freshness limit; no hit in any history happens at or after expiry; jwt-finalizer tokens served from cache are "
-                  "unexpired.  Each finding has a proved witness (C10_F1/F2/F3_refuted, C10_F1_history_refuted).  The model is tied to "
-                  "the code by running ~1200 (quick) / 30000 (thorough) generated cases per run through the real getCacheTTL functions, "
-                  "the real mechanism factory + WithConfig + Execute, the real RFC 7234 round tripper, the real in-memory cache and the real "
-                  "redis cache, and comparing ttls, lookups and hit/miss patterns with the model inside Coq.",
+                  "histories, both cache semantics), for the code as repaired by 637ae67/c971513/e0dc5e2, without guards: every ttl a "
+                  "mechanism hands to the cache is positive, at most the configured ttl, and ends strictly before the credential's / "
+                  "certificate's / token's own expiry even if applied up to 4 s late; a ttl of zero in force disables lookup and store; a "
+                  "response with non-positive freshness lifetime is not handed to the cache and a stored one expires exactly at its "
+                  "freshness limit; no hit in any history happens at or after expiry; jwt-finalizer tokens served from cache are unexpired; "
+                  "both cache semantics enforce expiry for all Set/Get sequences.  The evaluator's property predicate (written from the "
+                  "property text) is proved to follow from model correspondence for every well-formed case of all five kinds "
+                  "(C10_check_sound_fixed).  The pinned defects are kept as C10_F1/F2/F3_pinned_refuted.  The model is tied to the code by "
+                  "running ~1200 (quick) / 30000 (thorough) generated cases per run through the real getCacheTTL functions, the real "
+                  "mechanism factory + WithConfig + Execute, the real RFC 7234 round tripper (stub transport and the real "
+                  "Endpoint.CreateClient wiring), the real in-memory cache and the real redis cache, and comparing ttls, lookups and "
+                  "hit/miss patterns with the model inside Coq.",
     "level_note": "Trusted: Coq kernel/vm_compute; the correspondence harness; cachecontrol, miniredis, ttlcache as observed; token "
-                  "validation reduced to the expiry check.  The property predicate evaluated on the implementation's observations is written "
-                  "from the property text (ttl > 0, <= configured, set instant + ttl <= expiry + validity leeway (10 s for introspection "
-                  "and sessions, 0 for keys and tokens); zero disables; non-positive lifetime => not served from cache; hits only within "
-                  "the ttl handed to the cache).  Open findings C10-F1 (guard_F1), C10-F2 (guard_F2), C10-F3 (guard_F3), each replayed on "
-                  "the real code in every run (corpus) with candidate repairs fixes/C10-F1.diff, C10-F2.diff, C10-F3.diff; the model is "
-                  "parametric in them (fixes record; VERIF_C10_FIXED=111 selects the repaired model).",
+                  "validation reduced to the expiry check.  The property predicate evaluated on the implementation's observations: ttl > 0, "
+                  "<= configured, set instant + ttl <= expiry + validity leeway (10 s for introspection and sessions, 0 for keys and "
+                  "tokens); zero disables; non-positive lifetime => not served from cache; hits only within the ttl handed to the cache.  "
+                  "Findings C10-F1, C10-F2, C10-F3 were replayed on the real code, repaired by fix: commits 637ae67, c971513, e0dc5e2 "
+                  "(fixes/C10-F*.diff are the patches those commits were made from) and are now regression cases of the corpus: reverting "
+                  "any of the three commits makes the check report a VIOLATION with the witness as replay.",
     "assumptions": [
         "durations fit in int64 nanoseconds (time.Duration); the theorems are over unbounded Z",
         "the delay between computing a ttl and the cache applying it is at most 4 s (max_delay) for the strict-before-expiry theorems",
         "hist cases do not use the introspection authenticator: its cache key depends on map iteration order (C11-F1), identical "
         "requests miss at random, so its hit/miss pattern is not a function of the input (a miss is always safe for C10)",
-        "the default check_term expects the pinned code (fixes 000); after a fix is committed flip the digit in lib/props_C10.py "
-        "(until then the run reports `finding not reproduced`, never a violation)",
+        "the check_term expects the repaired code (VERIF_C10_FIXED defaults to 111)",
     ],
 }
